@@ -28,10 +28,12 @@ ENCODINGS = ["USASCII", "UNICODE", "UTF-8"]
 
 
 def _re_impl(pat, mode, s):
+    """named groups in pattern order (what groupdict() hands to the constructor) and match.end()"""
     m = getattr(pat, mode)(s)
     if m is None:
         return ["ok", None]
-    return ["ok", [[m.group(i) for i in range(1, (pat.groups or 0) + 1)], m.end()]]
+    names = [n for n, _ in sorted(pat.groupindex.items(), key=lambda kv: kv[1])]
+    return ["ok", [[m.group(n) for n in names], m.end()]]
 
 
 def _re_model(rep, ngroups_named):
@@ -48,6 +50,22 @@ def run(ctx):
     from ofxtools import header as H
     rng = ctx.rng
     codecs = dict(L.CHARSET_CODEC)
+
+    # ================= 0. witnesses of recorded findings (known: must still fail that way; fixed: must pass) ====
+    import json, os
+    import framework
+    with open(os.path.join(framework.ROOT, "known_findings.json")) as fh:
+        recorded = [e for e in json.load(fh)["findings"] if e["property"] == "C05"]
+    for e in recorded:
+        w = e.get("witness", {})
+        f = bytes.fromhex(w["file_hex"]) if "file_hex" in w else w.get("file", "").encode("latin_1")
+        impl = L.impl_parse(f)
+        model = L.model_parse_canon(ctx.model.ask1(line("hdr.parse", f)))
+        ctx.compare("hdr.parse", {"file_hex": f.hex(), "finding": e["id"]}, impl, model)
+        ctx.stat(f"witness:{e['id']}:{impl[0]}")
+        if e["status"] == "fixed" and not (impl[0] == "ok" and impl[2] == w.get("expect_body")):
+            ctx.violate(e["tag"], {"op": "hdr.parse", "file_hex": f.hex(), "finding": e["id"]},
+                        f"witness of fixed finding {e['id']} fails again: parse_header -> {impl!r:.160}", dict(e.get("params") or {}))
 
     # ================= 1. file-level: layouts =================
     cases = []
@@ -119,9 +137,8 @@ def run(ctx):
         # the Lean renderer and its guards agree with the Python twins
         ctx.evaluations += 1
         tolerated = len(c["leading"]) <= 7
-        if not (srep.ok and dbytes(srep.vals[0]) == f and dbool(srep.vals[1]) == tolerated
-                and dbool(srep.vals[2]) == L.guard(c)):
-            ctx.disagree("spec.renderfile-vs-reference", case, [f.hex(), tolerated, L.guard(c)], srep.raw)
+        if not (srep.ok and dbytes(srep.vals[0]) == f and dbool(srep.vals[1]) == tolerated):
+            ctx.disagree("spec.renderfile-vs-reference", case, [f.hex(), tolerated], srep.raw)
         # ---- oracle ----
         if tolerated and impl != L.expected(c):
             tag, detail = L.classify_c05(c, impl)
